@@ -89,11 +89,13 @@ func init() {
 	Reg["C06"] = func(tier string, seed int64) *Spec {
 		s := &Spec{
 			Prop:    "C06",
-			Pkgs:    []string{"search", "uci"},
+			Pkgs:    []string{"search", "uci", "board", "attacks"},
+			SliderSummary: true,
 			Confirm: &ConfirmRun{"search", "VpV_C06_sweep", "VpV_C06_case"},
 			Bounds: []string{
 				"UCI `go depth N`: every 64-bit N >= 1 (strconv parsing replaced by 'any integer'); recording mock search",
 				"engine reuse: refresh from an arbitrary abort flag, 0..3 open move-store frames and 0..3 history-stack entries",
+				"contract discharge: real MakeMove+UndoMove / MakeNullMove+UndoNullMove restore every attribute of an arbitrary valid position for 8 concrete (side, from, to, promotion) cases (knight move, double push, both castlings, promotion push, capture-promotion, e.p. geometry, rook from its home square) and the null move of either side; the full case split is C03's",
 			},
 			Stubs: []string{
 				"uci.parseInt/parseInt64 and uci.vpNumArg -> the symbolic integer named by the harness; sync.WaitGroup.Go/Wait, channel creation/close -> no-ops (the interrupt goroutine body is not executed: C13 not applicable); fmt.Fprintf -> no effect",
@@ -122,6 +124,18 @@ func init() {
 			run.Instance{Pkg: "uci", Func: "VpH_C06_godepth", Opt: run.Options{Setup: stub}},
 			run.Instance{Pkg: "search", Func: "VpH_C06_refresh"})
 		s.Instances = append(s.Instances, absInstances(tier, false)...)
+		// discharge of the contract the abstract-position harnesses rest on ("undo with the returned token restores the
+		// position"): the real MakeMove/UndoMove pair and the null-move pair on an arbitrary valid position (every
+		// attribute incl. both clocks symbolic) for one move of each kind the search plays. C03 decides the same
+		// obligation on its full case split; this sample is here so that "board left untouched" does not silently rest
+		// on another check (seeded change C06-m3: the undo token keeps only 6 bits of the halfmove clock).
+		for _, c := range [][4]int64{{0, 6, 21, 0}, {1, 52, 36, 0}, {0, 4, 6, 0}, {1, 60, 58, 0}, {0, 51, 59, 4}, {1, 11, 2, 5}, {0, 35, 42, 0}, {1, 63, 7, 0}} {
+			s.Instances = append(s.Instances, run.Instance{Pkg: "board", Func: "VpH_C03_undo",
+				Params: map[string]int64{"stm": c[0], "from": c[1], "to": c[2], "promo": c[3], "hist": 2}})
+		}
+		for stm := int64(0); stm < 2; stm++ {
+			s.Instances = append(s.Instances, run.Instance{Pkg: "board", Func: "VpH_C03_null", Params: map[string]int64{"stm": stm, "hist": 2}})
+		}
 		return s
 	}
 }
